@@ -154,6 +154,18 @@ CLAIMS = {
              "files that are not well-formed.",
         note=TRUST + "Card-length lemma: strlen(key)+1+strlen(value)+1 <= 82 for any card cfitsio returns.",
         technique="allocation-site enumeration vs size-model terms (affine capacity matching), release-before-allocate dataflow, current-HDU typestate"),
+    "C09": dict(
+        text="Decides ONE structural clause: the wiring of the penalised least-squares system. In fit: the penalty starts as the zero matrix of "
+             "side prod(nknots[i]-order[i]-1) and receives, for every dimension i, add_penalty_term with that dimension's knots, order, penalty "
+             "order and smoothing strength (scalars broadcast), which adds scale*calc_penalty (nothing for zero smoothing); calc_penalty builds the "
+             "(n-p) x n divided-difference matrix row by row, forms D'D and Kronecker-extends it with identities in dimension order; "
+             "glamfit_complex builds each dimension's basis from that dimension's knots/count/abscissae/order, F from the weights and R from "
+             "weights*data, multiplies both along every dimension by that dimension's (boxed) basis, solves (F + penalty) c = R with the Cholesky "
+             "route when no monotonic dimension is requested and copies every coefficient out. Statement shapes alpha-normalised, identities "
+             "across statements by declaration. That the result minimises the objective (what box, slicemultiply, kronecker_product, "
+             "divided_diffs and the solver compute) is numerical and is not decided.",
+        note=TRUST + "box/slicemultiply/kronecker_product/divided_diffs/cholesky_solve are assumed to compute what their names say.",
+        technique="call-wiring and statement-shape rules over the AST of the C fitter and the instantiated fit (alpha-normalised, declaration-linked)"),
     "C17": dict(
         text="Decides ONE structural clause: the wiring of grid evaluation. Row-major decomposition of the coefficient array with the table's "
              "strides into a sparse n-tuple of exactly the non-zero coefficients with the axis lengths as ranges; per dimension the table's own "
@@ -167,7 +179,6 @@ CLAIMS = {
 
 NOT_APPLICABLE = {
     "C01": "numerical identity between a floating-point result and a mathematical sum over runtime knots/coefficients; no structural clause beyond those decided under C02/C04/C05",
-    "C09": "numerical optimality of a sparse linear solve assembled through CHOLMOD; no clause visible in code shape",
 }
 
 # properties whose check is designed (DESIGN.md §4) but not yet built in this tree
